@@ -146,6 +146,41 @@ def single_field_subscriptions(rng, sv, doc):
     return d, "new-subscription-two-fields"
 
 
+def single_field_subscriptions_collected(rng, sv, doc):
+    """a second root field of a subscription that is only visible to `CollectFields` (spec 5.2.3.1, counter-examples
+    102 / 103): inside an inline fragment (with or without type condition) or a fragment (hunt2 C06/2: the rule counted
+    the WRITTEN selections). New operation `SubY` so that the rest of the document stays as it is."""
+    root = sv.root("subscription")
+    if not root:
+        return None
+    d = copy.deepcopy(doc)
+    lf = leaf_field(sv, root)
+    if not lf or any(o["name"] is None for o in ops(d)):
+        return None
+    f1, f2 = rng.choice(lf), rng.choice(lf)
+    a, b = mk_field(f1, alias="zy1"), mk_field(f2, alias="zy2")
+    how = rng.choice(["inline-typed", "inline-bare", "fragment", "nested-fragment", "field-and-fragment"])
+    uid = "Zs%d" % rng.randint(0, 999)
+    if how == "inline-typed":
+        sels = [{"k": "inline", "on": root, "dirs": [], "sels": [a, b]}]
+    elif how == "inline-bare":
+        sels = [{"k": "inline", "on": None, "dirs": [], "sels": [a, b]}]
+    elif how == "fragment":
+        d["defs"].insert(rng.randint(0, len(d["defs"])), {"k": "frag", "name": uid, "on": root, "dirs": [], "sels": [a, b]})
+        sels = [{"k": "spread", "name": uid, "dirs": []}]
+    elif how == "nested-fragment":
+        d["defs"].insert(rng.randint(0, len(d["defs"])), {"k": "frag", "name": uid + "b", "on": root, "dirs": [], "sels": [b]})
+        d["defs"].insert(rng.randint(0, len(d["defs"])), {"k": "frag", "name": uid, "on": root, "dirs": [],
+                                                          "sels": [a, {"k": "spread", "name": uid + "b", "dirs": []}]})
+        sels = [{"k": "spread", "name": uid, "dirs": []}]
+    else:
+        d["defs"].insert(rng.randint(0, len(d["defs"])), {"k": "frag", "name": uid, "on": root, "dirs": [], "sels": [b]})
+        sels = [a, {"k": "spread", "name": uid, "dirs": []}]
+        rng.shuffle(sels)
+    d["defs"].insert(rng.randint(0, len(d["defs"])), {"k": "op", "op": "subscription", "name": "SubY", "vars": [], "dirs": [], "sels": sels})
+    return d, "second-root-field-through-" + how
+
+
 def fields_on_correct_type(rng, sv, doc):
     d = copy.deepcopy(doc)
     p = Pos(sv, d)
@@ -1332,6 +1367,7 @@ INJECTORS = [
     ("unique_operation_names", "5.2.1.1", ["UniqueOperationNameChecker"], unique_operation_names),
     ("lone_anonymous_operation", "5.2.2.1", ["LoneAnonymousOperationChecker"], lone_anonymous_operation),
     ("single_field_subscriptions", "5.2.3.1", ["SingleFieldSubscriptionsChecker"], single_field_subscriptions),
+    ("single_field_subscriptions", "5.2.3.1", ["SingleFieldSubscriptionsChecker"], single_field_subscriptions_collected),
     ("fields_on_correct_type", "5.3.1", ["FieldsOnCorrectTypeChecker"], fields_on_correct_type),
     ("overlapping_fields_can_be_merged", "5.3.2", ["OverlappingFieldsCanBeMergedChecker"], overlapping_fields),
     ("leaf_field_selections", "5.3.3", ["ScalarLeafsChecker"], leaf_field_selections),
